@@ -6,6 +6,8 @@ pub struct ThrField {
     pub ty: &'static str,
     pub send: bool,
     pub sync: bool,
+    /// declared as allowed to stay uninitialised (Copy types only)
+    pub uninit: bool,
 }
 
 pub struct ThrDef {
@@ -15,7 +17,42 @@ pub struct ThrDef {
 }
 
 fn f(name: &'static str, ty: &'static str, send: bool, sync: bool) -> ThrField {
-    ThrField { name, ty, send, sync }
+    ThrField { name, ty, send, sync, uninit: false }
+}
+
+fn fu(name: &'static str, ty: &'static str, send: bool, sync: bool) -> ThrField {
+    ThrField { name, ty, send, sync, uninit: true }
+}
+
+/// (type, Send, Sync, Copy)
+const SPECIAL: &[(&str, &str, bool, bool, bool)] = &[
+    ("racy_rc", "thrtypes::RacyRc", false, false, false),
+    ("racy_cell", "thrtypes::RacyCell", true, false, false),
+    ("raw_ptr_field", "thrtypes::RawPtrField", false, false, true),
+    ("const_ptr", "*const u8", false, false, true),
+    ("guard_like", "thrtypes::SyncNotSend", false, true, false),
+    ("guard_like_copy", "thrtypes::SyncNotSendCopy", false, true, true),
+    ("arc_counter", "thrtypes::ArcCounter", true, true, false),
+    ("plain_u64", "u64", true, true, true),
+];
+
+/// For every special type, mandatory and (if Copy) may-be-uninit: present in the first variant next
+/// to ordinary data, removed in the second, added again in the third.
+fn systematic_defs() -> Vec<ThrDef> {
+    let mut out = Vec::new();
+    for &(name, ty, send, sync, copy) in SPECIAL {
+        for uninit in [false, true] {
+            if uninit && !copy {
+                continue;
+            }
+            let mk = |n: &'static str| if uninit { fu(n, ty, send, sync) } else { f(n, ty, send, sync) };
+            out.push(ThrDef {
+                name: Box::leak(format!("sys_{}{}", name, if uninit { "_uninit" } else { "" }).into_boxed_str()),
+                variants: vec![(vec![f("x", "u64", true, true), mk("t")], vec![]), (vec![fu("y", "u32", true, true)], vec!["t"]), (vec![mk("t2")], vec!["x"])],
+            });
+        }
+    }
+    out
 }
 
 pub fn thr_defs() -> Vec<ThrDef> {
@@ -43,25 +80,42 @@ pub fn thr_defs() -> Vec<ThrDef> {
         },
         ThrDef { name: "cell_only", variants: vec![(vec![f("cell", "thrtypes::RacyCell", true, false)], vec![])] },
     ]
+    .into_iter()
+    .chain(systematic_defs())
+    .collect()
 }
 
 pub fn add_field<R: truc::record::type_resolver::TypeResolver>(
     b: &mut truc::record::definition::builder::native::NativeRecordDefinitionBuilder<R>,
     fld: &ThrField,
 ) -> truc::record::definition::DatumId {
+    macro_rules! add {
+        ($t:ty) => {
+            if fld.uninit {
+                b.add_datum_override::<$t, _>(
+                    fld.name,
+                    truc::record::definition::builder::native::DatumDefinitionOverride { type_name: None, size: None, align: None, allow_uninit: Some(true) },
+                )
+            } else {
+                b.add_datum::<$t, _>(fld.name)
+            }
+        };
+    }
     match fld.ty {
-        "u64" => b.add_datum::<u64, _>(fld.name),
-        "u32" => b.add_datum::<u32, _>(fld.name),
-        "u8" => b.add_datum::<u8, _>(fld.name),
-        "()" => b.add_datum::<(), _>(fld.name),
-        "String" => b.add_datum::<String, _>(fld.name),
-        "Vec<u32>" => b.add_datum::<Vec<u32>, _>(fld.name),
-        "Option<String>" => b.add_datum::<Option<String>, _>(fld.name),
-        "thrtypes::RacyRc" => b.add_datum::<thrtypes::RacyRc, _>(fld.name),
-        "thrtypes::RacyCell" => b.add_datum::<thrtypes::RacyCell, _>(fld.name),
-        "thrtypes::RawPtrField" => b.add_datum::<thrtypes::RawPtrField, _>(fld.name),
-        "thrtypes::SyncNotSend" => b.add_datum::<thrtypes::SyncNotSend, _>(fld.name),
-        "thrtypes::ArcCounter" => b.add_datum::<thrtypes::ArcCounter, _>(fld.name),
+        "u64" => add!(u64),
+        "u32" => add!(u32),
+        "u8" => add!(u8),
+        "()" => add!(()),
+        "*const u8" => add!(*const u8),
+        "String" => add!(String),
+        "Vec<u32>" => add!(Vec<u32>),
+        "Option<String>" => add!(Option<String>),
+        "thrtypes::RacyRc" => add!(thrtypes::RacyRc),
+        "thrtypes::RacyCell" => add!(thrtypes::RacyCell),
+        "thrtypes::RawPtrField" => add!(thrtypes::RawPtrField),
+        "thrtypes::SyncNotSend" => add!(thrtypes::SyncNotSend),
+        "thrtypes::SyncNotSendCopy" => add!(thrtypes::SyncNotSendCopy),
+        "thrtypes::ArcCounter" => add!(thrtypes::ArcCounter),
         other => panic!("unknown SIM-T field type {}", other),
     }
     .unwrap()
